@@ -109,3 +109,31 @@ Example join_ido_ex :
         mk_meas d0305 t120000 1 16 [13] [13] [(13, [2; 3])] [] ] = Ok j
     /\ lookup_col 13 (j_cols j) = Some [2; 3; 4; 8].
 Proof. eexists. split; vm_compute; reflexivity. Qed.
+
+(* ---- the index_online column -------------------------------------------------- *)
+Lemma final_ido t0 f ms :
+  kind f = 3 ->
+  forall old, final_col t0 f ms old
+              = fold_left ido_append (map (getcol f) ms) old.
+Proof.
+  intros Hk. unfold final_col.
+  induction ms as [|m r IH]; intros old; cbn [fold_left map]; [reflexivity|].
+  rewrite IH. f_equal. unfold data_spec, ido_append. rewrite Hk. reflexivity.
+Qed.
+
+(* index_online of the joined file: the inputs' columns one after the other,
+   every later one shifted by (last value written so far) + 1 *)
+Theorem join_index_online_column inputs j f :
+  join_fixed inputs = Ok j -> In f (j_feats j) -> kind f = 3 ->
+  exists m0 rest,
+    map snd (sorted_gen leb_num inputs) = m0 :: rest
+    /\ lookup_col f (j_cols j) = Some (spec_ido f (m0 :: rest)).
+Proof.
+  intros Hj Hf Hk.
+  destruct (join_cols_final _ _ Hj) as [m0 [rest [Hs Hcol]]].
+  exists m0, rest. split; [exact Hs|].
+  rewrite (Hcol f Hf). f_equal. now apply final_ido.
+Qed.
+
+Example spec_ido_ex : spec_ido_blocks [[0; 2]; [1; 5]; [0]] = [0; 2; 4; 8; 9].
+Proof. reflexivity. Qed.
